@@ -33,7 +33,7 @@ def one(c):
     return c, {"exit": p.returncode, "line": line[0] if line else None, "why": " | ".join(why)[:500], "wall_s": round(time.time() - t0, 1)}
 
 
-for patch in sorted(glob.glob(os.path.join(OUT, "H*", "patch*.diff"))):
+for patch in sorted(glob.glob(os.path.join(OUT, "[HG]*", "patch*.diff"))):
     name = os.path.relpath(patch, OUT)
     if only and name not in only:
         continue
